@@ -269,6 +269,7 @@ def run(ctx):
     ctx.guard("C01.R3", "state-map ownership", lambda: r3_ownership(ctx))
     ctx.guard("C01.R4", "scope push/pop", lambda: r4_push_pop(ctx))
     ctx.guard("C01.R5", "entry API", lambda: r5_entry_api(ctx))
+    ctx.guard("C01.R6", "named accessors of State", lambda: r6_named_accessors(ctx))
 
 
 def r5_entry_api(ctx):
@@ -390,3 +391,93 @@ def r5_entry_api(ctx):
     expect(fn, "vacant", [wrap("vacant"), value], [("vacant.insert", "cell(default-value)")], "value-of:cell:inserted")
     ctx.count("entry_api_scenarios", n)
     ctx.floor("C01.R5", "entry API scenarios", n, 12)
+
+
+def r6_named_accessors(ctx):
+    """K6: State's named accessors are the registry accessor of exactly the named type - `populations_mut()` is
+    `borrow_mut::<Populations<P>>()`, `iterations()` is `get_value::<Iterations>()`, ... (every other rule, and the
+    interpreter's accessor aliasing, takes that for granted); best_individual() is the registry's BestIndividual when it
+    holds one, None when it is empty or absent; best_objective_value() is that individual's objective value."""
+    from absint import Interp, Sym, Agg, Ref, TOP, some, NONE, ok, err, std_oracle, chain, STATE_SUGAR
+    from collmodel import coll_oracle, install as _inst, load
+    F = ctx.facts
+    S = "mahf::state::State::"
+    n = 0
+    for name, (acc, ty) in sorted(STATE_SUGAR.items()):
+        fn = F.fn_opt(S + name)
+        if fn is None:
+            ctx.violation("C01.R6", S + name, "present", "the named accessor State::%s no longer exists (the interpreter's accessor aliasing lists it)" % name, kind="anchor-missing")
+            continue
+        asked = []
+
+        def oracle(interp, env, f, args, t, bb, path):
+            k = f.get("key", "")
+            if k.startswith(R) and f.get("name") in ("borrow", "borrow_mut", "try_borrow", "try_borrow_mut", "get_value", "try_get_value", "borrow_value", "borrow_value_mut", "try_borrow_value", "try_borrow_value_mut"):
+                asked.append((f.get("name"), (f.get("gargs") or [None])[0]))
+                v = Sym("registry-answer")
+                return ok(v) if f.get("name").startswith("try_") else v
+            return TOP
+        it = _inst(Interp(fn.body, chain(oracle, coll_oracle, std_oracle), [Sym("state")], facts=F, inline=lambda k: k.startswith("<mahf::state::State as core::ops::deref"), max_visits=6))
+        ps = it.run()
+        n += 1
+        fam = {"borrow": ("borrow", "try_borrow"), "borrow_mut": ("borrow_mut", "try_borrow_mut"), "get_value": ("get_value", "try_get_value", "borrow_value", "try_borrow_value")}[acc]
+        good = len(ps) == 1 and ps[0].end == "return" and ps[0].ret == Sym("registry-answer") and len(asked) == 1 and asked[0][0] in fam and asked[0][1] == ty
+        ctx.check(good, "C01.R6", fn.key, "is-" + acc, "State::%s() asks the registry for %s and returns %s; expected exactly %s::<%s>() and its answer"
+                  % (name, asked, [str(p.ret) if p.end == "return" else p.end for p in ps], acc, ty), loc=fn.loc())
+    # best_individual / best_objective_value
+    BEST = "mahf::state::common::BestIndividual<P>"
+    IND = "mahf::problems::individual::Individual"
+    home = 10000
+    for name in ("best_individual", "best_objective_value"):
+        fn = F.fn(S + name)
+        bad = []
+        for scen in ("holds", "empty", "absent"):
+            asked = []
+
+            def oracle(interp, env, f, args, t, bb, path, scen=scen):
+                k = f.get("key", "")
+                if k.startswith(R) and f.get("name") in ("try_borrow", "borrow", "try_borrow_mut", "borrow_mut"):
+                    asked.append((f.get("gargs") or [None])[0])
+                    if scen == "absent":
+                        return err(Sym("StateError::NotFound")) if f.get("name").startswith("try_") else "DIVERGE"
+                    r = Ref(home, [], frame="root")
+                    return ok(r) if f.get("name").startswith("try_") else r
+                if k in ("core::cell::Ref::filter_map", "core::cell::Ref::map") and len(args) == 2:
+                    outs = interp.call_value(args[1], [args[0]])
+                    if not outs or len(outs) != 1 or outs[0][2] != "return":
+                        return TOP
+                    r = outs[0][0]
+                    if k.endswith("filter_map"):
+                        if isinstance(r, Agg) and r.variant == "Some":
+                            return ok(r.fields[0])
+                        if isinstance(r, Agg) and r.variant == "None":
+                            return err(args[0])
+                        return TOP
+                    return r
+                return TOP
+            ind = Agg("adt", IND, "Individual", [Sym("best-solution"), some(Sym("best-objective"))])
+            it = _inst(Interp(fn.body, chain(oracle, coll_oracle, std_oracle), [Sym("state")], facts=F,
+                              inline=lambda k: k.startswith("<mahf::state::State as core::ops::deref") or k.startswith(S + "best_") or k.startswith("mahf::problems::individual::Individual::") or k.startswith("<mahf::state::common::BestIndividual"),
+                              max_visits=8))
+            it.extra_env = {home: Agg("adt", "mahf::state::common::BestIndividual", "BestIndividual", [some(ind) if scen == "holds" else NONE])}
+            n += 1
+            for p in it.run():
+                r = p.ret
+                if p.end != "return" or not isinstance(r, Agg) or r.name != "core::option::Option":
+                    bad.append((scen, "ends %s %s" % (p.end, r)))
+                    continue
+                if scen != "holds":
+                    if r.variant != "None":
+                        bad.append((scen, "yields %s, expected None" % r))
+                    continue
+                v = load(it, p.env, r.fields[0]) if r.variant == "Some" else None
+                if name == "best_individual":
+                    okv = isinstance(v, Agg) and v.name == IND and v.fields[0] == Sym("best-solution")
+                else:
+                    okv = v == Sym("best-objective")
+                if not okv:
+                    bad.append((scen, "yields %s, expected %s" % (r, "the recorded best individual" if name == "best_individual" else "its objective value")))
+            if scen != "absent" and any(a != BEST for a in asked):
+                bad.append((scen, "asks the registry for %s, expected %s" % (asked, BEST)))
+        ctx.check(not bad, "C01.R6", fn.key, "is-the-recorded-best", "BestIndividual %s: State::%s() %s" % ((bad[0][0], name, bad[0][1]) if bad else ("", name, "")), loc=fn.loc())
+    ctx.count("named_accessor_scenarios", n)
